@@ -352,7 +352,7 @@ theorem claim_dated_at_parent_confirmation_partial (cat : Catalog) (K : ClaimCat
   (crun_inv (U := fun _ => False) hK hnu (fun _ _ _ _ h => h) (cinit_inv cat K C _ b0)).dated o i c hoi hh hx
 
 /-- … and its preimage is known. -/
-theorem claim_only_with_preimage (cat : Catalog) (K : ClaimCat) (C : Nat)
+theorem claim_only_with_preimage_partial (cat : Catalog) (K : ClaimCat) (C : Nat)
     (hK : OneCommitment cat K C) (b0 : Nat) (ops : List COp) (hnu : NoUnconf ops)
     (o : Nat) (i : OutInfo) (c : Nat) (hoi : (o, i) ∈ K.outs)
     (hx : (⟨o, c⟩ : Claim) ∈ (crun cat K (cinit b0) ops).claims) :
@@ -551,14 +551,14 @@ theorem claims_view_path_independent_partial (cat : Catalog) (K : ClaimCat) (C :
   constructor
   · intro hx
     have hd := claim_dated_at_parent_confirmation_partial cat K C hK b0 ops₁ hnu₁ o i c hoi hh hx
-    have hp := claim_only_with_preimage cat K C hK b0 ops₁ hnu₁ o i c hoi hx
+    have hp := claim_only_with_preimage_partial cat K C hK b0 ops₁ hnu₁ o i c hoi hx
     rcases hd with hd | hd
     · exact no_claim_lost_partial cat K C hK b0 ops₂ hnu₂ o i hoi hh hu₂
         (preKnown_mono (fun q hq => (hpre q).1 hq) hp) c ((awIff c).1 hd) (fun hm => hnf (matIff.2 hm))
     · exact absurd hd hnf
   · intro hx
     have hd := claim_dated_at_parent_confirmation_partial cat K C hK b0 ops₂ hnu₂ o i c hoi hh hx
-    have hp := claim_only_with_preimage cat K C hK b0 ops₂ hnu₂ o i c hoi hx
+    have hp := claim_only_with_preimage_partial cat K C hK b0 ops₂ hnu₂ o i c hoi hx
     rcases hd with hd | hd
     · exact no_claim_lost_partial cat K C hK b0 ops₁ hnu₁ o i hoi hh hu₁
         (preKnown_mono (fun q hq => (hpre q).2 hq) hp) c ((awIff c).2 hd) hnf
@@ -623,7 +623,7 @@ example :
 /-- the one-commitment catalog used by the counter-examples -/
 def exCat : Catalog := fun t => if t = 1 then [{ kind := 2, csv := none }] else []
 
-theorem exCat_one (K : ClaimCat) (hp : ∀ o i, (o, i) ∈ K.outs → i.parent = 1)
+private theorem exCat_one (K : ClaimCat) (hp : ∀ o i, (o, i) ∈ K.outs → i.parent = 1)
     (hf : ∀ o i i', (o, i) ∈ K.outs → (o, i') ∈ K.outs → i = i') : OneCommitment exCat K 1 where
   fsc_only := by
     intro t ev hev _
